@@ -59,8 +59,11 @@ package pipeline
 //@     assigns nothing
 //@     invariant [match] match && (forall d string :: {visited(d)} visited(d) ==> has(p,d) && adj.With[d] == p[d])
 
+//@ define pluginsWF(c) := (forall i int :: {c.Plugins[i]} 0 <= i && i < len(c.Plugins) ==> c.Plugins[i] != nil) &&
+//@     (forall i int, j int :: {c.Plugins[i], c.Plugins[j]} 0 <= i && i < j && j < len(c.Plugins) ==> c.Plugins[i] != c.Plugins[j])
+
 //@ func (*CommandStep).InterpolateMatrixPermutation
-//@   requires c != nil
+//@   requires c != nil && pluginsWF(c)
 //@   assigns everything
 //@   ensures [reject] !old(accept(c.Matrix, mp)) ==> err != nil && unchanged()
 //@   ensures [accept] old(accept(c.Matrix, mp)) && old(len(mp)) == 0 ==> err == nil && unchanged()
@@ -226,3 +229,270 @@ package pipeline
 //@   requires m != nil
 //@   assigns everything
 //@   ensures [simple] ret1 == nil && old(simpleMatrix(m)) ==> jsonOf(ret0, box([]string, old(m.Setup[""])))
+
+// ---- string transformers and walkers (C04, C10, C12) ----
+// tfT(tf, s): the single-pass image of s under transformer tf; tfOK(tf, s): the
+// expansion succeeds. Both are pure functions of (tf, s) (see the assumption on
+// interpolate.Interpolate in /verif/contracts/externals.spec).
+
+//@ func (stringTransformer).Transform
+//@   pure
+//@   ensures [ok]  (ret1 == nil) == tfOK(recv, arg0)
+//@   ensures [val] ret1 == nil ==> ret0 == tfT(recv, arg0)
+//@   note ASSUMPTION: a string transformer is a deterministic function of its operand (for an envInterpolator: the environment is not modified while the rest of the pipeline is interpolated)
+
+//@ func interpolateString
+//@   requires tf != nil
+//@   assigns *p
+//@   ensures [nil] p == nil ==> ret == nil
+//@   ensures [ok]  p != nil && tfOK(tf, old(*p)) ==> ret == nil && *p == tfT(tf, old(*p))
+//@   ensures [err] p != nil && !tfOK(tf, old(*p)) ==> ret != nil && *p == old(*p)
+
+//@ func interpolateAny[string]
+//@   requires tf != nil
+//@   pure
+//@   assigns nothing
+//@   ensures [ok]  tfOK(tf, o) ==> ret1 == nil && ret0 == tfT(tf, o)
+//@   ensures [err] !tfOK(tf, o) ==> ret1 != nil
+
+//@ func interpolateSlice[string,[]string]
+//@   requires tf != nil
+//@   assigns s[..]
+//@   ensures [ok]  (forall i int :: {s[i]} 0 <= i && i < len(s) ==> tfOK(tf, old(s[i]))) ==>
+//@       ret == nil && (forall i int :: {s[i]} 0 <= i && i < len(s) ==> s[i] == tfT(tf, old(s[i])))
+//@   ensures [err] (exists i int :: {s[i]} 0 <= i && i < len(s) && !tfOK(tf, old(s[i]))) ==> ret != nil
+//@   loop 0
+//@     assigns s[..]
+//@     invariant [idx] 0 <= $idx && $idx <= len(s)
+//@     invariant [done] forall i int :: {s[i]} 0 <= i && i < $idx ==> tfOK(tf, old(s[i])) && s[i] == tfT(tf, old(s[i]))
+//@     invariant [todo] forall i int :: {s[i]} $idx <= i && i < len(s) ==> s[i] == old(s[i])
+//@     decreases len(s) - $idx
+
+//@ func interpolateMapValues[string,string,map[string]string]
+//@   requires tf != nil
+//@   assigns *m
+//@   ensures [names] forall k string :: {has(m, k)} has(m, k) == old(has(m, k))
+//@   ensures [ok]  (forall k string :: {has(m, k)} old(has(m, k)) ==> tfOK(tf, old(m[k]))) ==>
+//@       ret == nil && (forall k string :: {m[k]} has(m, k) ==> m[k] == tfT(tf, old(m[k])))
+//@   ensures [err] (exists k string :: {has(m, k)} old(has(m, k)) && !tfOK(tf, old(m[k]))) ==> ret != nil
+//@   loop 0
+//@     assigns *m
+//@     invariant [names] forall k string :: {has(m, k)} has(m, k) == old(has(m, k))
+//@     invariant [done] forall k string :: {visited(k)} visited(k) ==> has(m, k) && tfOK(tf, old(m[k])) && m[k] == tfT(tf, old(m[k]))
+//@     invariant [todo] forall k string :: {m[k]} has(m, k) && !visited(k) ==> m[k] == old(m[k])
+
+//@ define allOKss(tf, m) := forall k string :: {has(m, k)} has(m, k) ==> tfOK(tf, k) && tfOK(tf, m[k])
+//@ define injOn(tf, m) := forall k1 string, k2 string :: {has(m, k1), has(m, k2)} has(m, k1) && has(m, k2) && k1 != k2 ==> tfT(tf, k1) != tfT(tf, k2)
+
+// interpolateMap over string maps: the result is exactly the image of the old
+// map, every key and value transformed once. With colliding expanded keys the
+// result is not determined by the property, hence the injectivity hypothesis.
+//@ func interpolateMap[string,string,map[string]string]
+//@   requires tf != nil
+//@   assigns *m
+//@   ensures [err] !old(allOKss(tf, m)) ==> ret != nil &&
+//@       (forall k string :: {has(m, k)} has(m, k) == old(has(m, k))) && (forall k string :: {m[k]} has(m, k) ==> m[k] == old(m[k]))
+//@   ensures [ok]  old(allOKss(tf, m)) ==> ret == nil
+//@   ensures [image-sup] old(allOKss(tf, m)) && old(injOn(tf, m)) ==>
+//@       (forall k string :: {old(has(m, k))} old(has(m, k)) ==> has(m, tfT(tf, k)) && m[tfT(tf, k)] == tfT(tf, old(m[k])))
+//@   ensures [image-sub] old(allOKss(tf, m)) ==>
+//@       (forall k2 string :: {has(m, k2)} has(m, k2) ==> (exists k string :: {old(has(m, k))} old(has(m, k)) && k2 == tfT(tf, k)))
+//@   loop 0
+//@     assigns pairs[..]
+//@     invariant [arr] arr(pairs) == atloop(arr(pairs)) || loopfresh(pairs)
+//@     invariant [ok] forall k string :: {visited(k)} visited(k) ==> has(m, k) && tfOK(tf, k) && tfOK(tf, m[k])
+//@     invariant [fwd] forall k string :: {visited(k)} visited(k) ==> (exists q int :: {pairs[q]} 0 <= q && q < len(pairs) && pairs[q].k == tfT(tf, k) && pairs[q].v == tfT(tf, m[k]))
+//@     invariant [bwd] forall q int :: {pairs[q]} 0 <= q && q < len(pairs) ==> (exists k string :: {tfT(tf, k)} visited(k) && pairs[q].k == tfT(tf, k) && pairs[q].v == tfT(tf, m[k]))
+//@   loop 1
+//@     assigns *m
+//@     invariant [idx] 0 <= $idx && $idx <= len(pairs)
+//@     invariant [sub] forall k2 string :: {has(m, k2)} has(m, k2) ==> (exists q int :: {pairs[q]} 0 <= q && q < $idx && pairs[q].k == k2)
+//@     invariant [sup] forall q int :: {pairs[q]} 0 <= q && q < $idx ==> has(m, pairs[q].k)
+//@     invariant [val] old(injOn(tf, m)) ==> (forall q int :: {pairs[q]} 0 <= q && q < $idx ==> m[pairs[q].k] == pairs[q].v)
+//@     decreases len(pairs) - $idx
+
+//@ func interpolateMap[string,string,pipeline.MatrixAdjustmentWith]
+//@   like interpolateMap[string,string,map[string]string]
+
+// ---- container walkers over generic (any-typed) values ----
+// ASSUMPTION (tree shape, DESIGN.md C04): values of type any inside a pipeline
+// are generic YAML values as the parser produces them - nil, bool, int,
+// float64, string, []any, map[string]any, *ordered.Map[string,any] - so
+// interpolating them writes only objects of those container types. The
+// contracts marked trusted state this frame; their functional clauses cover
+// the string cases.
+//@ frame GENERIC := all(map[string]any), all([]any), all(*ordered.Map[string,any]), all([]ordered.Tuple[string,any]), all(map[string]int)
+
+//@ func interpolateAny[any]
+//@   trusted
+//@   requires tf != nil
+//@   assigns @GENERIC
+//@   ensures [string-ok]  typeis(o, string) && tfOK(tf, unbox(o, string)) ==> ret1 == nil && ret0 == box(string, tfT(tf, unbox(o, string)))
+//@   ensures [string-err] typeis(o, string) && !tfOK(tf, unbox(o, string)) ==> ret1 != nil
+//@   ensures [other] !typeis(o, string) && ret1 == nil ==> ret0 == o
+//@   note ASSUMED (tree shape): frame limited to generic containers; string case = single Transform
+
+//@ func interpolateMap[string,any,map[string]any]
+//@   trusted
+//@   requires tf != nil
+//@   assigns @GENERIC
+//@   note ASSUMED (tree shape): frame limited to generic containers
+
+//@ func interpolateSlice[any,[]any]
+//@   trusted
+//@   requires tf != nil
+//@   assigns @GENERIC
+//@   note ASSUMED (tree shape): frame limited to generic containers
+
+//@ func interpolateMap[string,[]string,pipeline.MatrixSetup]
+//@   trusted
+//@   requires tf != nil
+//@   assigns all(map[string][]string), all([]string)
+//@   note ASSUMED: frame = the setup map and its value lists
+
+// ---- per-type interpolate methods: which fields are transformed (C04, C12) ----
+
+//@ func (*Plugin).interpolate
+//@   requires p != nil && tf != nil
+//@   assigns p.Source, p.Config, @GENERIC
+//@   ensures [ok]  ret == nil ==> tfOK(tf, old(p.Source)) && p.Source == tfT(tf, old(p.Source))
+//@   ensures [cfg-string] ret == nil && old(typeis(p.Config, string)) ==> p.Config == box(string, tfT(tf, old(unbox(p.Config, string))))
+//@   ensures [cfg-other]  ret == nil && !old(typeis(p.Config, string)) ==> p.Config == old(p.Config)
+//@   ensures [err] ret != nil ==> p.Source == old(p.Source) && p.Config == old(p.Config)
+
+//@ func interpolateAny[*pipeline.Plugin]
+//@   requires tf != nil && o != nil
+//@   assigns o.Source, o.Config, @GENERIC
+//@   ensures [same] ret0 == o
+//@   ensures [ok]  ret1 == nil ==> tfOK(tf, old(o.Source)) && o.Source == tfT(tf, old(o.Source))
+
+//@ func interpolateSlice[*pipeline.Plugin,pipeline.Plugins]
+//@   requires tf != nil && (forall i int :: {s[i]} 0 <= i && i < len(s) ==> s[i] != nil) &&
+//@       (forall i int, j int :: {s[i], s[j]} 0 <= i && i < j && j < len(s) ==> s[i] != s[j])
+//@   assigns all(*Plugin), @GENERIC
+//@   ensures [ok] ret == nil ==> (forall i int :: {s[i]} 0 <= i && i < len(s) ==> s[i].Source == tfT(tf, old(s[i].Source)))
+//@   loop 0
+//@     assigns all(*Plugin), @GENERIC
+//@     invariant [idx] 0 <= $idx && $idx <= len(s)
+//@     invariant [done] forall i int :: {s[i]} 0 <= i && i < $idx ==> s[i].Source == tfT(tf, old(s[i].Source))
+//@     invariant [todo] forall i int :: {s[i]} $idx <= i && i < len(s) ==> s[i].Source == old(s[i].Source)
+//@     invariant [same] forall i int :: {s[i]} 0 <= i && i < len(s) ==> s[i] == old(s[i])
+//@     decreases len(s) - $idx
+
+//@ frame MATRIXOBJ := all(map[string][]string), all(*MatrixAdjustment)
+
+//@ func (*MatrixAdjustment).interpolate
+//@   requires tf != nil
+//@   assigns *ma.With, @GENERIC
+//@   ensures [nil] ma == nil ==> ret == nil
+
+//@ func interpolateAny[*pipeline.MatrixAdjustment]
+//@   requires tf != nil
+//@   assigns all(map[string]string), @GENERIC
+//@   ensures [same] ret0 == o
+
+//@ func interpolateSlice[*pipeline.MatrixAdjustment,pipeline.MatrixAdjustments]
+//@   requires tf != nil
+//@   assigns all(map[string]string), @GENERIC
+//@   loop 0
+//@     assigns all(map[string]string), @GENERIC
+//@     invariant [idx] 0 <= $idx && $idx <= len(s)
+//@     invariant [same] forall i int :: {s[i]} 0 <= i && i < len(s) ==> s[i] == old(s[i])
+//@     decreases len(s) - $idx
+
+//@ func (*Matrix).interpolate
+//@   requires tf != nil
+//@   assigns @GENERIC, all(map[string][]string), all([]string), all(map[string]string)
+//@   ensures [nil] m == nil ==> ret == nil
+//@   check [matrix-mode] typeis(tf, matrixInterpolator) ==> ret == nil && unchanged()
+
+//@ func (*CommandStep).interpolate
+//@   requires c != nil && tf != nil && pluginsWF(c)
+//@   assigns c.Command, c.Label, c.Key, all(*Plugin), all(map[string][]string), all([]string), all(map[string]string), @GENERIC
+//@   ensures [scalars] ret == nil ==> c.Command == tfT(tf, old(c.Command)) && c.Label == tfT(tf, old(c.Label))
+//@   ensures [plugins] ret == nil ==> (forall i int :: {c.Plugins[i]} 0 <= i && i < len(c.Plugins) ==> c.Plugins[i].Source == tfT(tf, old(c.Plugins[i].Source)))
+//@   ensures [key-env] ret == nil && typeis(tf, envInterpolator) ==> c.Key == tfT(tf, old(c.Key))
+//@   ensures [key-matrix] typeis(tf, matrixInterpolator) ==> c.Key == old(c.Key)
+//@   ensures [env-names-matrix] typeis(tf, matrixInterpolator) ==> (forall k string :: {has(c.Env, k)} has(c.Env, k) == old(has(c.Env, k)))
+//@   ensures [env-values-matrix] ret == nil && typeis(tf, matrixInterpolator) ==> (forall k string :: {c.Env[k]} has(c.Env, k) ==> c.Env[k] == tfT(tf, old(c.Env[k])))
+//@   ensures [matrix-def-matrix] typeis(tf, matrixInterpolator) ==> (forall d string :: {has(c.Matrix.Setup, d)} has(c.Matrix.Setup, d) == old(has(c.Matrix.Setup, d)) && c.Matrix.Setup[d] == old(c.Matrix.Setup[d]))
+//@   ensures [untouched] c.Signature == old(c.Signature) && c.Matrix == old(c.Matrix) && c.Cache == old(c.Cache) && c.Plugins == old(c.Plugins) && c.Env == old(c.Env) && c.RemainingFields == old(c.RemainingFields)
+
+//@ frame STEPS := all(*CommandStep), all(*GroupStep), all(*WaitStep), all(*UnknownStep), all(*Plugin), all(map[string][]string), all([]string), all(map[string]string), all(*string), @GENERIC
+
+//@ func (selfInterpolater).interpolate
+//@   requires arg0 != nil
+//@   assigns @STEPS
+//@   note every implementation writes only step structures, their typed maps and generic containers
+
+//@ func (*WaitStep).interpolate
+//@   requires s != nil && tf != nil
+//@   assigns @GENERIC
+//@ func (InputStep).interpolate
+//@   requires tf != nil
+//@   assigns @GENERIC
+//@ func (TriggerStep).interpolate
+//@   requires tf != nil
+//@   assigns @GENERIC
+//@ func (*UnknownStep).interpolate
+//@   requires u != nil && tf != nil
+//@   assigns u.Contents, @GENERIC
+//@   ensures [string] ret == nil && old(typeis(u.Contents, string)) ==> u.Contents == box(string, tfT(tf, old(unbox(u.Contents, string))))
+//@   ensures [other]  ret == nil && !old(typeis(u.Contents, string)) ==> u.Contents == old(u.Contents)
+
+//@ func interpolateAny[pipeline.Step]
+//@   requires tf != nil
+//@   assigns @STEPS
+//@   ensures [same] ret1 == nil ==> ret0 == o
+
+//@ func interpolateSlice[pipeline.Step,pipeline.Steps]
+//@   requires tf != nil
+//@   assigns @STEPS
+//@   ensures [same] ret == nil ==> (forall i int :: {s[i]} 0 <= i && i < len(s) ==> s[i] == old(s[i]))
+//@   loop 0
+//@     assigns @STEPS, s[..]
+//@     invariant [idx] 0 <= $idx && $idx <= len(s)
+//@     invariant [same] forall i int :: {s[i]} 0 <= i && i < len(s) ==> s[i] == old(s[i])
+//@     decreases len(s) - $idx
+
+//@ func (Steps).interpolate
+//@   requires tf != nil
+//@   assigns @STEPS
+//@   ensures [same] ret == nil ==> (forall i int :: {s[i]} 0 <= i && i < len(s) ==> s[i] == old(s[i]))
+
+//@ func (*GroupStep).interpolate
+//@   requires g != nil && tf != nil
+//@   assigns @STEPS
+
+// ---- C12: matrix interpolation ----
+
+//@ ginv token_re: matrixTokenRE != nil
+
+//@ func newMatrixInterpolator
+//@   assigns nothing
+//@   ensures [fresh] ret.replacements != nil && fresh(ret.replacements)
+//@   ensures [anon]  has(mp, "") ==> has(ret.replacements, "") && ret.replacements[""] == mp[""]
+//@   ensures [named] forall d string :: {has(mp, d)} has(mp, d) && d != "" ==> has(ret.replacements, "." ++ d) && ret.replacements["." ++ d] == mp[d]
+//@   ensures [only]  forall k string :: {has(ret.replacements, k)} has(ret.replacements, k) ==> (k == "" && has(mp, "")) || (hasPrefix(k, ".") && trimPrefix(k, ".") != "" && has(mp, trimPrefix(k, ".")))
+//@   loop 0
+//@     assigns *replacements
+//@     invariant [fresh] replacements != nil && fresh(replacements)
+//@     invariant [anon]  visited("") ==> has(replacements, "") && replacements[""] == mp[""]
+//@     invariant [named] forall d string :: {visited(d)} visited(d) && d != "" ==> has(replacements, "." ++ d) && replacements["." ++ d] == mp[d]
+//@     invariant [vis]   forall d string :: {visited(d)} visited(d) ==> has(mp, d)
+//@     invariant [only]  forall k string :: {has(replacements, k)} has(replacements, k) ==> (k == "" && has(mp, "")) || (hasPrefix(k, ".") && trimPrefix(k, ".") != "" && has(mp, trimPrefix(k, ".")))
+
+// One callback of the token replacement: a known dimension is replaced by the
+// permutation's value; an unknown one yields "" and is recorded (so that
+// Transform fails instead of silently producing an empty string).
+//@ func (matrixInterpolator).Transform$1
+//@   requires isMatrixToken(s)
+//@   assigns unknown, unknown[..]
+//@   ensures [known]   has(m.replacements, tokenGroup(s)) ==> ret == m.replacements[tokenGroup(s)] && unknown == old(unknown)
+//@   ensures [unknown] !has(m.replacements, tokenGroup(s)) ==> ret == "" && len(unknown) == old(len(unknown)) + 1 && unknown[old(len(unknown))] == tokenGroup(s)
+
+//@ func (matrixInterpolator).Transform
+//@   assigns everything
+//@   check [fails] (ret1 != nil) == (len(unknown) > 0)
+//@   loop 0
+//@     invariant [idx] 0 <= $idx
